@@ -1,10 +1,10 @@
 import AsynqModel.Lib.Generator
 import AsynqModel.Proofs.Generator
-/-! C17: every operation of the model is accepted by the observer `watchStep` -/
+/-! C17: every operation of the model is accepted by the observer `watchBasic` -/
 namespace AsynqModel.Generator
 
 theorem rel_next (total : Nat) (w : Watch) (s : St) (h : Rel total w s) :
-    ∃ w', watchStep total w (observe s .next).2 = .ok w' ∧ Rel total w' (observe s .next).1 := by
+    ∃ w', watchBasic total w (observeBasic s .next).2 = .ok w' ∧ Rel total w' (observeBasic s .next).1 := by
   obtain ⟨rest, pulled, stopped, lt, futs⟩ := s
   obtain ⟨wr, wf, wk⟩ := w
   obtain ⟨h1, h2, h3, h4, h5, h6⟩ := h
@@ -15,58 +15,58 @@ theorem rel_next (total : Nat) (w : Watch) (s : St) (h : Rel total w s) :
   cases hb : blockedBy lt futs with
   | true =>
     have hs : St.blocked ⟨wr, pulled, wf, lt, futs⟩ = true := hb
-    have ho : observe ⟨wr, pulled, wf, lt, futs⟩ .next =
-        (⟨wr, pulled, wf, lt, futs⟩, ⟨.next, .raised .runtimeError, pulled, wf, 0⟩) := by
-      simp [observe, step, next_blocked _ hs]
+    have ho : observeBasic ⟨wr, pulled, wf, lt, futs⟩ .next =
+        (⟨wr, pulled, wf, lt, futs⟩, ⟨.next, .raised .runtimeError, none, pulled, wf, 0⟩) := by
+      simp [observeBasic, stepBasic, next_blocked _ hs]
     rw [ho]
     refine ⟨⟨wr, wf, futs.map Fut.known⟩, ?_, ⟨rfl, rfl, rfl, h4, h5, h6⟩⟩
-    simp [watchStep, hbe, hb, Res.hasMarker, h4]
+    simp [watchBasic, hbe, hb, Res.hasMarker, h4]
   | false =>
     have hnp := noPending_of_unblocked lt futs h6 hb
     cases wr with
     | nil =>
-      have ho : observe ⟨[], pulled, wf, lt, futs⟩ .next =
-          (⟨[], pulled, true, lt, futs⟩, ⟨.next, .raised .stopIteration, pulled, true, 0⟩) := by
-        cases wf <;> simp [observe, step, next, send, blocked_eq, hb, getOneValue]
+      have ho : observeBasic ⟨[], pulled, wf, lt, futs⟩ .next =
+          (⟨[], pulled, true, lt, futs⟩, ⟨.next, .raised .stopIteration, none, pulled, true, 0⟩) := by
+        cases wf <;> simp [observeBasic, stepBasic, next, send, blocked_eq, hb, getOneValue]
       rw [ho]
       simp only [List.length_nil, Nat.add_zero] at h4
       refine ⟨⟨[], true, futs.map Fut.known⟩, ?_, ⟨rfl, rfl, rfl, by simpa using h4, by simp, h6⟩⟩
-      simp [watchStep, hbe, hb, Res.hasMarker, h4]
+      simp [watchBasic, hbe, hb, Res.hasMarker, h4]
     | cons x r =>
       have hst : wf = false := by cases wf <;> simp_all
       subst hst
       simp only [List.length_cons] at h4
       cases x with
       | value v =>
-        have ho : observe ⟨.value v :: r, pulled, false, lt, futs⟩ .next =
-            (⟨r, pulled + 1, false, lt, futs ++ [Fut.const v]⟩, ⟨.next, .fut (some v), pulled + 1, false, 0⟩) := by
-          simp [observe, step, next, send, blocked_eq, hb, getOneValue]
+        have ho : observeBasic ⟨.value v :: r, pulled, false, lt, futs⟩ .next =
+            (⟨r, pulled + 1, false, lt, futs ++ [Fut.const v]⟩, ⟨.next, .fut (some v), none, pulled + 1, false, 0⟩) := by
+          simp [observeBasic, stepBasic, next, send, blocked_eq, hb, getOneValue]
         rw [ho]
         refine ⟨⟨r, false, (futs ++ [Fut.const v]).map Fut.known⟩, ?_, ⟨rfl, rfl, rfl, ?_, by simp, ?_⟩⟩
         · have : pulled + 1 + r.length = total := by omega
-          simp [watchStep, hbe, hb, Res.hasMarker, Fut.known, this]
+          simp [watchBasic, hbe, hb, Res.hasMarker, Fut.known, this]
         · show pulled + 1 + r.length = total
           omega
-        · intro k hk
+        · intro k b hk
           simp only [List.getElem?_append] at hk
           split at hk
-          · exact h6 k hk
+          · exact h6 k b hk
           · cases hkk : k - futs.length <;> simp [hkk] at hk
-      | await =>
-        have ho : observe ⟨.await :: r, pulled, false, lt, futs⟩ .next =
-            (⟨r, pulled + 1, false, some (.handle futs.length), futs ++ [Fut.pending]⟩,
-              ⟨.next, .fut none, pulled + 1, false, 0⟩) := by
-          simp [observe, step, next, send, blocked_eq, hb, getOneValue]
+      | await bb =>
+        have ho : observeBasic ⟨.await bb :: r, pulled, false, lt, futs⟩ .next =
+            (⟨r, pulled + 1, false, some (.handle futs.length), futs ++ [Fut.pending bb]⟩,
+              ⟨.next, .fut none, none, pulled + 1, false, 0⟩) := by
+          simp [observeBasic, stepBasic, next, send, blocked_eq, hb, getOneValue]
         rw [ho]
-        refine ⟨⟨r, false, (futs ++ [Fut.pending]).map Fut.known⟩, ?_, ⟨rfl, rfl, rfl, ?_, by simp, ?_⟩⟩
+        refine ⟨⟨r, false, (futs ++ [Fut.pending bb]).map Fut.known⟩, ?_, ⟨rfl, rfl, rfl, ?_, by simp, ?_⟩⟩
         · have : pulled + 1 + r.length = total := by omega
-          simp [watchStep, hbe, hb, Res.hasMarker, Fut.known, this]
+          simp [watchBasic, hbe, hb, Res.hasMarker, Fut.known, this]
         · show pulled + 1 + r.length = total
           omega
-        · intro k hk
+        · intro k b hk
           simp only [List.getElem?_append] at hk
           split at hk
-          · exact absurd hk (hnp k)
+          · exact absurd hk (hnp k b)
           · rename_i hlt
             show some (LastRef.handle futs.length) = some (LastRef.handle k)
             have : k - futs.length = 0 := by
@@ -80,7 +80,7 @@ theorem known_getElem? (futs : List Fut) (k : Nat) : (futs.map Fut.known)[k]? = 
   simp
 
 theorem rel_compute (total : Nat) (w : Watch) (s : St) (k : Nat) (h : Rel total w s) :
-    ∃ w', watchStep total w (observe s (.compute k)).2 = .ok w' ∧ Rel total w' (observe s (.compute k)).1 := by
+    ∃ w', watchBasic total w (observeBasic s (.compute k)).2 = .ok w' ∧ Rel total w' (observeBasic s (.compute k)).1 := by
   obtain ⟨rest, pulled, stopped, lt, futs⟩ := s
   obtain ⟨wr, wf, wk⟩ := w
   obtain ⟨h1, h2, h3, h4, h5, h6⟩ := h
@@ -88,51 +88,51 @@ theorem rel_compute (total : Nat) (w : Watch) (s : St) (k : Nat) (h : Rel total 
   subst h1 h2 h3
   cases hk : futs[k]? with
   | none =>
-    have ho : observe ⟨wr, pulled, wf, lt, futs⟩ (.compute k) =
-        (⟨wr, pulled, wf, lt, futs⟩, ⟨.compute k, .raised .other, pulled, wf, 0⟩) := by
-      simp [observe, step, compute, hk]
+    have ho : observeBasic ⟨wr, pulled, wf, lt, futs⟩ (.compute k) =
+        (⟨wr, pulled, wf, lt, futs⟩, ⟨.compute k, .raised .other, none, pulled, wf, 0⟩) := by
+      simp [observeBasic, stepBasic, compute, hk]
     rw [ho]
     refine ⟨⟨wr, wf, futs.map Fut.known⟩, ?_, ⟨rfl, rfl, rfl, h4, h5, h6⟩⟩
-    simp [watchStep, Res.hasMarker, hk]
+    simp [watchBasic, Res.hasMarker, hk]
   | some f =>
     cases f with
     | const v =>
-      have ho : observe ⟨wr, pulled, wf, lt, futs⟩ (.compute k) =
-          (⟨wr, pulled, wf, lt, futs⟩, ⟨.compute k, .item (.val v), pulled, wf, 0⟩) := by
-        simp [observe, step, compute, hk]
+      have ho : observeBasic ⟨wr, pulled, wf, lt, futs⟩ (.compute k) =
+          (⟨wr, pulled, wf, lt, futs⟩, ⟨.compute k, .item (.val v), none, pulled, wf, 0⟩) := by
+        simp [observeBasic, stepBasic, compute, hk]
       rw [ho]
       refine ⟨⟨wr, wf, futs.map Fut.known⟩, ?_, ⟨rfl, rfl, rfl, h4, h5, h6⟩⟩
-      simp [watchStep, Res.hasMarker, hk, Fut.known, h4]
+      simp [watchBasic, Res.hasMarker, hk, Fut.known, h4]
     | done x =>
-      have ho : observe ⟨wr, pulled, wf, lt, futs⟩ (.compute k) =
-          (⟨wr, pulled, wf, lt, futs⟩, ⟨.compute k, .item x, pulled, wf, 0⟩) := by
-        simp [observe, step, compute, hk]
+      have ho : observeBasic ⟨wr, pulled, wf, lt, futs⟩ (.compute k) =
+          (⟨wr, pulled, wf, lt, futs⟩, ⟨.compute k, .item x, none, pulled, wf, 0⟩) := by
+        simp [observeBasic, stepBasic, compute, hk]
       rw [ho]
       refine ⟨⟨wr, wf, futs.map Fut.known⟩, ?_, ⟨rfl, rfl, rfl, h4, h5, h6⟩⟩
-      simp [watchStep, Res.hasMarker, hk, Fut.known, h4]
-    | pending =>
+      simp [watchBasic, Res.hasMarker, hk, Fut.known, h4]
+    | pending pb =>
       have hl := drainRest_length_le wr
-      have ho : observe ⟨wr, pulled, wf, lt, futs⟩ (.compute k) =
+      have ho : observeBasic ⟨wr, pulled, wf, lt, futs⟩ (.compute k) =
           (⟨drainRest wr, pulled + (wr.length - (drainRest wr).length), wf || drainItem wr == .endMarker, lt,
               futs.set k (.done (drainItem wr))⟩,
-            ⟨.compute k, .item (drainItem wr), pulled + (wr.length - (drainRest wr).length),
+            ⟨.compute k, .item (drainItem wr), none, pulled + (wr.length - (drainRest wr).length),
               wf || drainItem wr == .endMarker, 0⟩) := by
-        simp [observe, step, compute, hk, sendInner_spec]
+        simp [observeBasic, stepBasic, compute, hk, sendInner_spec]
       rw [ho]
-      have hlast : ∀ j : Nat, (futs.set k (Fut.done (drainItem wr)))[j]? = some Fut.pending →
+      have hlast : ∀ (j : Nat) (b : Bool), (futs.set k (Fut.done (drainItem wr)))[j]? = some (Fut.pending b) →
           lt = some (LastRef.handle j) := by
-        intro j hj
+        intro j b hj
         rw [List.getElem?_set] at hj
         split at hj
         · split at hj <;> simp at hj
-        · exact h6 j hj
+        · exact h6 j b hj
       have hwk : (futs.map Fut.known)[k]? = some none := by simp [hk, Fut.known]
       rcases skipAwaits_cases wr with h0 | ⟨v, r, h1⟩
       · have hi : drainItem wr = .endMarker := by simp [drainItem, h0]
         have hr : drainRest wr = [] := by simp [drainRest, h0]
         simp only [hi, hr, List.length_nil, Nat.sub_zero] at hlast ⊢
         refine ⟨⟨[], true, (futs.map Fut.known).set k (some .endMarker)⟩, ?_, ⟨rfl, by simp, ?_, ?_, by simp, hlast⟩⟩
-        · simp [watchStep, Res.hasMarker, hwk, h0, h4]
+        · simp [watchBasic, Res.hasMarker, hwk, h0, h4]
         · simp [List.map_set, Fut.known]
         · simpa using h4
       · have hi : drainItem wr = .val v := by simp [drainItem, h1]
@@ -145,13 +145,13 @@ theorem rel_compute (total : Nat) (w : Watch) (s : St) (k : Nat) (h : Rel total 
           simp [skipAwaits] at h1
         refine ⟨⟨r, wf, (futs.map Fut.known).set k (some (.val v))⟩, ?_, ⟨rfl, by simp, ?_, ?_, by simpa using hwf, hlast⟩⟩
         · have : pulled + (wr.length - r.length) + r.length = total := by omega
-          simp [watchStep, Res.hasMarker, hwk, h1, this]
+          simp [watchBasic, Res.hasMarker, hwk, h1, this]
         · simp [List.map_set, Fut.known]
         · show pulled + (wr.length - r.length) + r.length = total
           omega
 
 theorem rel_take (total : Nat) (w : Watch) (s : St) (m : Nat) (h : Rel total w s) :
-    ∃ w', watchStep total w (observe s (.take (m + 1))).2 = .ok w' ∧ Rel total w' (observe s (.take (m + 1))).1 := by
+    ∃ w', watchBasic total w (observeBasic s (.take (m + 1))).2 = .ok w' ∧ Rel total w' (observeBasic s (.take (m + 1))).1 := by
   obtain ⟨rest, pulled, stopped, lt, futs⟩ := s
   obtain ⟨wr, wf, wk⟩ := w
   obtain ⟨h1, h2, h3, h4, h5, h6⟩ := h
@@ -162,20 +162,20 @@ theorem rel_take (total : Nat) (w : Watch) (s : St) (m : Nat) (h : Rel total w s
   cases hb : blockedBy lt futs with
   | true =>
     have hs : St.blocked ⟨wr, pulled, wf, lt, futs⟩ = true := hb
-    have ho : observe ⟨wr, pulled, wf, lt, futs⟩ (.take (m + 1)) =
-        (⟨wr, pulled, wf, lt, futs⟩, ⟨.take (m + 1), .raised .runtimeError, pulled, wf, 0⟩) := by
-      simp [observe, step, takeFirst_blocked _ _ hs]
+    have ho : observeBasic ⟨wr, pulled, wf, lt, futs⟩ (.take (m + 1)) =
+        (⟨wr, pulled, wf, lt, futs⟩, ⟨.take (m + 1), .raised .runtimeError, none, pulled, wf, 0⟩) := by
+      simp [observeBasic, stepBasic, takeFirst_blocked _ _ hs]
     rw [ho]
     refine ⟨⟨wr, wf, futs.map Fut.known⟩, ?_, ⟨rfl, rfl, rfl, h4, h5, h6⟩⟩
-    simp [watchStep, hbe, hb, Res.hasMarker, h4]
+    simp [watchBasic, hbe, hb, Res.hasMarker, h4]
   | false =>
     have hnp := noPending_of_unblocked lt futs h6 hb
     obtain ⟨lt', p', e, hp, hb'⟩ := takeFirst_spec wr m pulled wf lt futs hb h5
-    have ho : observe ⟨wr, pulled, wf, lt, futs⟩ (.take (m + 1)) =
+    have ho : observeBasic ⟨wr, pulled, wf, lt, futs⟩ (.take (m + 1)) =
         (⟨dropValues (m + 1) wr, p', wf || decide ((values wr).length < m + 1), lt', futs⟩,
-          ⟨.take (m + 1), .lst (((values wr).take (m + 1)).map .val), p',
+          ⟨.take (m + 1), .lst (((values wr).take (m + 1)).map .val), none, p',
             wf || decide ((values wr).length < m + 1), 0⟩) := by
-      simp [observe, step, e]
+      simp [observeBasic, stepBasic, e]
     rw [ho]
     have hpos : p' + (dropValues (m + 1) wr).length = total := by omega
     have hwf : (wf || decide ((values wr).length < m + 1)) = true → dropValues (m + 1) wr = [] := by
@@ -186,11 +186,11 @@ theorem rel_take (total : Nat) (w : Watch) (s : St) (m : Nat) (h : Rel total w s
     have hm : Res.hasMarker (.lst (((values wr).map Item.val).take (m + 1))) = false := by
       rw [← List.map_take]; exact hasMarker_vals _
     refine ⟨⟨dropValues (m + 1) wr, wf || decide ((values wr).length < m + 1), futs.map Fut.known⟩, ?_,
-      ⟨rfl, rfl, rfl, hpos, hwf, fun k hk => absurd hk (hnp k)⟩⟩
-    simp [watchStep, hbe, hb, hm, hpos]
+      ⟨rfl, rfl, rfl, hpos, hwf, fun k b hk => absurd hk (hnp k b)⟩⟩
+    simp [watchBasic, hbe, hb, hm, hpos]
 
 theorem rel_list (total : Nat) (w : Watch) (s : St) (h : Rel total w s) :
-    ∃ w', watchStep total w (observe s .list).2 = .ok w' ∧ Rel total w' (observe s .list).1 := by
+    ∃ w', watchBasic total w (observeBasic s .list).2 = .ok w' ∧ Rel total w' (observeBasic s .list).1 := by
   obtain ⟨rest, pulled, stopped, lt, futs⟩ := s
   obtain ⟨wr, wf, wk⟩ := w
   obtain ⟨h1, h2, h3, h4, h5, h6⟩ := h
@@ -201,44 +201,206 @@ theorem rel_list (total : Nat) (w : Watch) (s : St) (h : Rel total w s) :
   cases hb : blockedBy lt futs with
   | true =>
     have hs : St.blocked ⟨wr, pulled, wf, lt, futs⟩ = true := hb
-    have ho : observe ⟨wr, pulled, wf, lt, futs⟩ .list =
-        (⟨wr, pulled, wf, lt, futs⟩, ⟨.list, .raised .runtimeError, pulled, wf, 0⟩) := by
-      simp [observe, step, listOf_blocked _ hs]
+    have ho : observeBasic ⟨wr, pulled, wf, lt, futs⟩ .list =
+        (⟨wr, pulled, wf, lt, futs⟩, ⟨.list, .raised .runtimeError, none, pulled, wf, 0⟩) := by
+      simp [observeBasic, stepBasic, listOf_blocked _ hs]
     rw [ho]
     refine ⟨⟨wr, wf, futs.map Fut.known⟩, ?_, ⟨rfl, rfl, rfl, h4, h5, h6⟩⟩
-    simp [watchStep, hbe, hb, Res.hasMarker, h4]
+    simp [watchBasic, hbe, hb, Res.hasMarker, h4]
   | false =>
     have hnp := noPending_of_unblocked lt futs h6 hb
     obtain ⟨lt', p', e, hp, hb'⟩ := listOf_spec wr pulled wf lt futs hb h5
-    have ho : observe ⟨wr, pulled, wf, lt, futs⟩ .list =
-        (⟨[], p', true, lt', futs⟩, ⟨.list, .lst ((values wr).map .val), p', true, 0⟩) := by
-      simp [observe, step, e]
+    have ho : observeBasic ⟨wr, pulled, wf, lt, futs⟩ .list =
+        (⟨[], p', true, lt', futs⟩, ⟨.list, .lst ((values wr).map .val), none, p', true, 0⟩) := by
+      simp [observeBasic, stepBasic, e]
     rw [ho]
     have hpos : p' = total := by omega
     have hm := hasMarker_vals (values wr)
     refine ⟨⟨[], true, futs.map Fut.known⟩, ?_,
-      ⟨rfl, rfl, rfl, by simpa using hpos, by simp, fun k hk => absurd hk (hnp k)⟩⟩
-    simp [watchStep, hbe, hb, hm, hpos]
+      ⟨rfl, rfl, rfl, by simpa using hpos, by simp, fun k b hk => absurd hk (hnp k b)⟩⟩
+    simp [watchBasic, hbe, hb, hm, hpos]
 
 theorem rel_take_zero (total : Nat) (w : Watch) (s : St) (h : Rel total w s) :
-    ∃ w', watchStep total w (observe s (.take 0)).2 = .ok w' ∧ Rel total w' (observe s (.take 0)).1 := by
-  have ho : observe s (.take 0) = (s, ⟨.take 0, .lst [], s.pulled, s.stopped, 0⟩) := by
-    simp [observe, step, takeFirst_zero]
+    ∃ w', watchBasic total w (observeBasic s (.take 0)).2 = .ok w' ∧ Rel total w' (observeBasic s (.take 0)).1 := by
+  have ho : observeBasic s (.take 0) = (s, ⟨.take 0, .lst [], none, s.pulled, s.stopped, 0⟩) := by
+    simp [observeBasic, stepBasic, takeFirst_zero]
   rw [ho]
   refine ⟨w, ?_, h⟩
-  simp [watchStep, Res.hasMarker, h.rest, h.fin, h.pos]
+  simp [watchBasic, Res.hasMarker, h.rest, h.fin, h.pos]
 
-/-- every operation keeps the model inside what the observer accepts -/
-theorem rel_step (total : Nat) (w : Watch) (s : St) (op : Op) (h : Rel total w s) :
-    ∃ w', watchStep total w (observe s op).2 = .ok w' ∧ Rel total w' (observe s op).1 := by
-  cases op with
+/-- a basic advance (`next` / `take_first` / `list_of_generator`) is accepted -/
+theorem rel_adv (total : Nat) (w : Watch) (s : St) (a : Adv) (h : Rel total w s) :
+    ∃ w', watchBasic total w (observeBasic s a.toOp).2 = .ok w' ∧ Rel total w' (observeBasic s a.toOp).1 := by
+  cases a with
   | next => exact rel_next total w s h
-  | compute k => exact rel_compute total w s k h
   | list => exact rel_list total w s h
   | take n =>
     cases n with
     | zero => exact rel_take_zero total w s h
     | succ m => exact rel_take total w s m h
+
+/-- while the previously returned task is not computed every advance is refused and changes nothing -/
+theorem adv_blocked (s : St) (a : Adv) (hb : s.blocked = true) : stepBasic s a.toOp = (s, refused a) := by
+  cases a with
+  | next => exact next_blocked s hb
+  | list => exact listOf_blocked s hb
+  | take n =>
+    cases n with
+    | zero => exact takeFirst_zero s
+    | succ m => exact takeFirst_blocked s m hb
+
+theorem compute_pending (s : St) (k : Nat) (b : Bool) (hk : s.futs[k]? = some (.pending b)) :
+    compute s k = ({ (sendInner s).1 with futs := (sendInner s).1.futs.set k (.done (sendInner s).2) },
+      .item (sendInner s).2) := by
+  simp [compute, hk]
+
+/-- computing an outstanding task: the observer's cursor follows (`drainWatch`) -/
+theorem rel_compute_out (total : Nat) (w : Watch) (s : St) (k : Nat) (b : Bool) (h : Rel total w s)
+    (hk : s.futs[k]? = some (.pending b)) :
+    Rel total (drainWatch w k).1 (compute s k).1 ∧ (compute s k).2 = .item (drainWatch w k).2 := by
+  obtain ⟨rest, pulled, stopped, lt, futs⟩ := s
+  obtain ⟨wr, wf, wk⟩ := w
+  obtain ⟨h1, h2, h3, h4, h5, h6⟩ := h
+  simp only at h1 h2 h3 h4 h5 h6 hk
+  subst h1 h2 h3
+  have hl := drainRest_length_le wr
+  have hc : compute ⟨wr, pulled, wf, lt, futs⟩ k =
+      (⟨drainRest wr, pulled + (wr.length - (drainRest wr).length), wf || drainItem wr == .endMarker, lt,
+          futs.set k (.done (drainItem wr))⟩, .item (drainItem wr)) := by
+    simp [compute, hk, sendInner_spec]
+  rw [hc]
+  have hlast : ∀ (j : Nat) (b : Bool), (futs.set k (Fut.done (drainItem wr)))[j]? = some (Fut.pending b) →
+      lt = some (LastRef.handle j) := by
+    intro j b hj
+    rw [List.getElem?_set] at hj
+    split at hj
+    · split at hj <;> simp at hj
+    · exact h6 j b hj
+  rcases skipAwaits_cases wr with h0 | ⟨v, r, h1⟩
+  · have hi : drainItem wr = .endMarker := by simp [drainItem, h0]
+    have hr : drainRest wr = [] := by simp [drainRest, h0]
+    simp only [hi, hr, List.length_nil, Nat.sub_zero, drainWatch, h0] at hlast ⊢
+    refine ⟨⟨rfl, by simp, ?_, ?_, by simp, hlast⟩, trivial⟩
+    · simp [List.map_set, Fut.known]
+    · simpa using h4
+  · have hi : drainItem wr = .val v := by simp [drainItem, h1]
+    have hr : drainRest wr = r := by simp [drainRest, h1]
+    simp only [hi, hr, drainWatch, h1] at hlast hl ⊢
+    have hwf : wf = true → r = [] := by
+      intro hw
+      have := h5 hw
+      subst this
+      simp [skipAwaits] at h1
+    refine ⟨⟨rfl, by simp, ?_, ?_, by simpa using hwf, hlast⟩, trivial⟩
+    · simp [List.map_set, Fut.known]
+    · show pulled + (wr.length - r.length) + r.length = total
+      omega
+
+/-- two consumers: the k-th future and a sibling advancing the generator in the same yield -/
+theorem rel_par (total : Nat) (w : Watch) (s : St) (k : Nat) (a : Adv) (h : Rel total w s) :
+    ∃ w', watchStep total w (observe s (.par k a)).2 = .ok w' ∧ Rel total w' (observe s (.par k a)).1 := by
+  have hkn : w.known[k]? = (s.futs[k]?).map Fut.known := by rw [h.known]; simp
+  cases hk : s.futs[k]? with
+  | none =>
+    rw [hk] at hkn
+    have ho : observe s (.par k a) = (s, ⟨.par k a, .raised .other, none, s.pulled, s.stopped, 0⟩) := by
+      simp [observe, par, hk]
+    rw [ho]
+    refine ⟨w, ?_, h⟩
+    simp [watchStep, hkn, h.rest, h.fin, h.pos]
+  | some f =>
+    rw [hk] at hkn
+    cases f with
+    | const v =>
+      have hkn' : w.known[k]? = some (some (.val v)) := by rw [hkn]; rfl
+      obtain ⟨w', hw, hr⟩ := rel_adv total w s a h
+      have ho : observe s (.par k a) = ((observeBasic s a.toOp).1,
+          ⟨.par k a, .item (.val v), some (true, (stepBasic s a.toOp).2), (observeBasic s a.toOp).1.pulled,
+            (observeBasic s a.toOp).1.stopped, 0⟩) := by
+        simp [observe, par, hk, observeBasic]
+      rw [ho]
+      refine ⟨w', ?_, hr⟩
+      simp only [watchStep, hkn']
+      simpa [sibObs, observeBasic] using hw
+    | done x =>
+      have hkn' : w.known[k]? = some (some x) := by rw [hkn]; rfl
+      obtain ⟨w', hw, hr⟩ := rel_adv total w s a h
+      have ho : observe s (.par k a) = ((observeBasic s a.toOp).1,
+          ⟨.par k a, .item x, some (true, (stepBasic s a.toOp).2), (observeBasic s a.toOp).1.pulled,
+            (observeBasic s a.toOp).1.stopped, 0⟩) := by
+        simp [observe, par, hk, observeBasic]
+      rw [ho]
+      refine ⟨w', ?_, hr⟩
+      simp only [watchStep, hkn']
+      simpa [sibObs, observeBasic] using hw
+    | pending b =>
+      have hkn' : w.known[k]? = some none := by rw [hkn]; rfl
+      obtain ⟨hrel, hitem⟩ := rel_compute_out total w s k b h hk
+      have hcp := compute_pending s k b hk
+      have hsp := startTask_spec b s.rest s.pulled s.stopped s.lastTask s.futs
+      have hs : (⟨s.rest, s.pulled, s.stopped, s.lastTask, s.futs⟩ : St) = s := rfl
+      rw [hs] at hsp
+      cases hst : startTask s b with
+      | mk s1 o =>
+        cases o with
+        | some x =>
+          -- the task is computed before the sibling runs
+          have hsi := hsp.1 s1 x hst
+          have hc1 : (compute s k).1 = { s1 with futs := s1.futs.set k (.done x) } := by rw [hcp, hsi]
+          have hc2 : (drainWatch w k).2 = x := by
+            have := hitem; rw [hcp, hsi] at this; simpa using this.symm
+          obtain ⟨w', hw, hr⟩ := rel_adv total (drainWatch w k).1 (compute s k).1 a hrel
+          rw [hc1] at hw hr
+          have ho : observe s (.par k a) =
+              ((observeBasic { s1 with futs := s1.futs.set k (.done x) } a.toOp).1,
+                ⟨.par k a, .item x, some (true, (stepBasic { s1 with futs := s1.futs.set k (.done x) } a.toOp).2),
+                  (observeBasic { s1 with futs := s1.futs.set k (.done x) } a.toOp).1.pulled,
+                  (observeBasic { s1 with futs := s1.futs.set k (.done x) } a.toOp).1.stopped, 0⟩) := by
+            simp [observe, par, hk, hst, observeBasic]
+          rw [ho]
+          refine ⟨w', ?_, hr⟩
+          simp only [watchStep, hkn']
+          simpa [sibObs, observeBasic, hc2] using hw
+        | none =>
+          -- the task has started and is parked: NOT computed, the guard is still armed
+          obtain ⟨hl1, hf1, hsi⟩ := hsp.2 s1 hst
+          have hb1 : s1.blocked = true := by
+            simp [St.blocked, hl1, hf1, h.last k b hk, hk]
+          have hadv := adv_blocked s1 a hb1
+          have hc1 : (compute s k).1 = { (sendInner s1).1 with futs := (sendInner s1).1.futs.set k (.done (sendInner s1).2) } := by
+            rw [hcp, hsi]
+          have hc2 : (drainWatch w k).2 = (sendInner s1).2 := by
+            have := hitem; rw [hcp, ← hsi] at this; simpa using this.symm
+          have ho : observe s (.par k a) = ((compute s k).1,
+              ⟨.par k a, .item (sendInner s1).2, some (false, refused a), (compute s k).1.pulled,
+                (compute s k).1.stopped, 0⟩) := by
+            simp [observe, par, hk, hst, hadv, hc1]
+          rw [ho]
+          refine ⟨(drainWatch w k).1, ?_, hrel⟩
+          simp [watchStep, hkn', hc2, hrel.rest, hrel.fin, hrel.pos]
+
+/-- every operation keeps the model inside what the observer accepts -/
+theorem rel_step (total : Nat) (w : Watch) (s : St) (op : Op) (h : Rel total w s) :
+    ∃ w', watchStep total w (observe s op).2 = .ok w' ∧ Rel total w' (observe s op).1 := by
+  have basic : ∀ op' : Op, (∀ k a, op' ≠ .par k a) →
+      (∃ w', watchBasic total w (observeBasic s op').2 = .ok w' ∧ Rel total w' (observeBasic s op').1) →
+      ∃ w', watchStep total w (observe s op').2 = .ok w' ∧ Rel total w' (observe s op').1 := by
+    intro op' hne hx
+    cases op' with
+    | par k a => exact absurd rfl (hne k a)
+    | next => simpa [watchStep, observe, observeBasic] using hx
+    | compute k => simpa [watchStep, observe, observeBasic] using hx
+    | take n => simpa [watchStep, observe, observeBasic] using hx
+    | list => simpa [watchStep, observe, observeBasic] using hx
+  cases op with
+  | next => exact basic _ (by simp) (rel_next total w s h)
+  | compute k => exact basic _ (by simp) (rel_compute total w s k h)
+  | list => exact basic _ (by simp) (rel_list total w s h)
+  | take n =>
+    cases n with
+    | zero => exact basic _ (by simp) (rel_take_zero total w s h)
+    | succ m => exact basic _ (by simp) (rel_take total w s m h)
+  | par k a => exact rel_par total w s k a h
 
 theorem watchRun_ok (total : Nat) (ops : List Op) : ∀ (w : Watch) (s : St), Rel total w s →
     ∃ w', watchRun total w (run s ops) = .ok w' := by
